@@ -320,6 +320,10 @@ def run_C02(ctx):
         return
     bases = small_bases(ctx, 700 if ctx.quick else 12000)
     pre = corpora.prefixes(bases)
+    # one replaced byte: the verdict reached a few bytes after it must be the verdict on the whole buffer
+    mb, mp = corpora.mutated_windows(bases[:(36 if ctx.quick else 600)])
+    bases = bases + mb
+    pre = pre + mp
     for force, be, sub in ((None, "rt1", pre), (3, "rt3", pre[::3])):
         res = execute("C02", sub, force=force, model_be=be)
         ctx.broken += res.errors
@@ -392,6 +396,9 @@ def run_C11(ctx):
         return
     bases = small_bases(ctx, 400 if ctx.quick else 8000)
     pre = corpora.prefixes(bases)
+    # plus: every position of a sample of bases with a wrong byte as the last byte received
+    nb = 90 if ctx.quick else 1500
+    pre += corpora.cut_after_bad(bases[:nb] + [c for c in bases if c[2] == "c"][:nb // 6])
     res = execute("C11", pre)
     ctx.broken += res.errors
     partials = []
